@@ -68,10 +68,10 @@ def _q16(e0, e1, e2, e3, m0, m1, m2, m3, ms, now0, inc0, inc1, pi, hashing, hrec
     w.vfs.time_source = tsrc
     w.install()
     try:
-        before = w.vfs.snapshot()
+        before = w.view()
         w.touch(pats)
         w.vfs.time_source = None
-        after = w.vfs.snapshot()
+        after = w.view()
         req = pr.requested(pats)
         cone = sorted(P.closure(pr.deps, req))
         cone_outs = set(ROOT + "/" + o for i in cone for o in pr.outputs[i])
